@@ -50,6 +50,7 @@ func sscenarios(thorough bool) []sscen {
 		{"A1|A1 put#2 fails", ses, "10.0.0.0/30", nil, [][]string{{"A1"}, {"A1"}}, 2},
 		{"A1|R1|A2 one unit left", ses, "10.0.0.0/31", []string{"A3"}, [][]string{{"A1"}, {"R1"}, {"A2"}}, 0},
 		{"A1|A2 one unit left", ses, "10.0.0.0/31", []string{"A3"}, [][]string{{"A1"}, {"A2"}}, 0},
+		{"A1|A2 mode unset", allocator.PoolMode(""), "10.0.0.0/30", []string{"A3"}, [][]string{{"A1"}, {"A2"}}, 0},
 		{"A1|R1 lease", lea, "10.0.0.0/29", nil, [][]string{{"A1"}, {"R1"}}, 0},
 	}
 	if thorough {
@@ -117,7 +118,7 @@ func (sc sscen) scenario() *sched.Scenario {
 				panic(err)
 			}
 			st.da = da
-			if sc.mode == allocator.PoolModeSession {
+			if sc.mode != allocator.PoolModeLease {
 				// session mode Start = load + watch, no goroutine. Lease mode is driven without Start:
 				// its epoch loop waits on a real ticker, which is not a scheduling point.
 				if err := da.Start(context.Background()); err != nil {
@@ -223,7 +224,7 @@ func checkSsched(st *sstate) []sched.Viol {
 			add("stability", "Allocate", "%s was given %s and never released, but the node maps it to %q", s, got[s][0], mem[s])
 		}
 	}
-	if len(vs) > 0 || st.sc.mode != allocator.PoolModeSession {
+	if len(vs) > 0 || st.sc.mode == allocator.PoolModeLease {
 		return vs
 	}
 	// R1: restart on the surviving content, every Query order
